@@ -58,4 +58,18 @@ theorem output_grammatical (T : Tables) (hT : TablesOK T) (hG : TablesGrammar T)
       (encodeDoc T ascii label quads qs) = true :=
   Proofs.C01.output_grammatical T hT hG urlOk ascii label hl quads qs hwf
 
+/-- Encoder options ("under any option combination"): over any list of `EncoderOption` values the
+    effective ASCII flag is the last one set — an option that does not mention ASCII leaves it alone,
+    and the default is off. These three equations determine `effectiveAscii` on every option list. -/
+theorem opts_ascii_last_set_wins (opts : List EncOpt) (a : Bool) (p : Option Nat) :
+    effectiveAscii (opts ++ [⟨some a, p⟩]) = a := by
+  simp [effectiveAscii, compileOpts, List.foldl_append, EncOpt.apply]
+
+theorem opts_ascii_unset_keeps (opts : List EncOpt) (p : Option Nat) :
+    effectiveAscii (opts ++ [⟨none, p⟩]) = effectiveAscii opts := by
+  simp [effectiveAscii, compileOpts, List.foldl_append, EncOpt.apply]
+
+theorem opts_ascii_default : effectiveAscii [] = false := by
+  simp [effectiveAscii, compileOpts]
+
 end RdfModel.C01
